@@ -195,6 +195,9 @@ pub fn exec(tag: i64, inp: &[i64]) -> Vec<i64> {
             let tidx = inp[0];
             let f = &inp[1..];
             fn rt<T: serde::Serialize + serde::de::DeserializeOwned + PartialEq>(x: T) -> Vec<i64> {
+                rt2(x, false)
+            }
+            fn rt2<T: serde::Serialize + serde::de::DeserializeOwned + PartialEq>(x: T, top_level_struct: bool) -> Vec<i64> {
                 let v = match serde_json::to_value(&x) {
                     Ok(v) => v,
                     Err(_) => return vec![-95],
@@ -203,6 +206,25 @@ pub fn exec(tag: i64, inp: &[i64]) -> Vec<i64> {
                 enc_json(&v, &mut o);
                 o.push(match serde_json::from_value::<T>(v) {
                     Ok(y) => (y == x) as i64,
+                    Err(_) => 0,
+                });
+                // the positional form, as a non-self-describing format would carry it: for a
+                // top-level struct the field values in the order Serialize emitted them (taken
+                // from the JSON text; the fields are scalars), as a sequence
+                o.push(match serde_json::to_string(&x) {
+                    Ok(text) if top_level_struct && text.starts_with('{') && !text[1..].contains('{') && !text.contains('[') => {
+                        let inner = &text[1..text.len() - 1];
+                        let vals: Vec<&str> = inner
+                            .split(',')
+                            .map(|kv| kv.splitn(2, ':').nth(1).unwrap_or(""))
+                            .collect();
+                        let arr = format!("[{}]", vals.join(","));
+                        match serde_json::from_str::<T>(&arr) {
+                            Ok(y) => (y == x) as i64,
+                            Err(_) => 0,
+                        }
+                    }
+                    Ok(_) => 1,
                     Err(_) => 0,
                 });
                 o
@@ -219,8 +241,8 @@ pub fn exec(tag: i64, inp: &[i64]) -> Vec<i64> {
                 13 => rt(dec_tcqf(f[0], f[1], f[2])),
                 14 => rt(dec_struct(f[0], f[1], f[2], f[3])),
                 15 => rt(raw(f[0], f[1], f[2])),
-                16 => rt(ControlChange14BitMessage::new(ch(f[0]), cn(f[1]), u14(f[2]))),
-                _ => rt(crate::nrpn::ctor(
+                16 => rt2(ControlChange14BitMessage::new(ch(f[0]), cn(f[1]), u14(f[2])), true),
+                _ => rt2(crate::nrpn::ctor(
                     // constructor number from (registered, 14-bit, data type)
                     match (f[3] == 1, f[4] == 1, f[5]) {
                         (false, true, _) => 1,
@@ -235,7 +257,7 @@ pub fn exec(tag: i64, inp: &[i64]) -> Vec<i64> {
                     ch(f[0]),
                     u14(f[1]),
                     f[2],
-                )),
+                ), true),
             }
         }
         _ => vec![-97],
